@@ -1155,13 +1155,27 @@ func c02Unlink(p *Prog, r *Report) {
 						})
 					}
 					rs, ok := y.(*ast.RangeStmt)
-					if !ok || rs.Value == nil {
+					if !ok || (rs.Value == nil && rs.Key == nil) {
 						return true
 					}
-					vobj := objOf(info, rs.Value)
+					var vobj, kobj types.Object
+					if rs.Value != nil {
+						vobj = objOf(info, rs.Value)
+					} else {
+						kobj = objOf(info, rs.Key)
+					}
 					unlinks := false
 					ast.Inspect(rs.Body, func(z ast.Node) bool {
-						if c, ok := z.(*ast.CallExpr); ok && unl.CallUses(fi, c, func(e ast.Expr) bool { return vobj != nil && objOf(info, e) == vobj }) {
+						if c, ok := z.(*ast.CallExpr); ok && unl.CallUses(fi, c, func(e ast.Expr) bool {
+							if vobj != nil && objOf(info, e) == vobj {
+								return true
+							}
+							// by position: for i := range S { unlink(S[i]) }
+							if ix, isIx := ast.Unparen(e).(*ast.IndexExpr); isIx && kobj != nil && objOf(info, ix.Index) == kobj {
+								return f.CanonPath(ix.X) != "" && f.CanonPath(ix.X) == f.CanonPath(rs.X)
+							}
+							return false
+						}) {
 							unlinks = true
 						}
 						return true
